@@ -67,15 +67,19 @@ ANCHORS = [
     "txtorcon.util:SingleObserver.fire",
 ]
 FLOORS = {
-    "quick": {"evaluations": 400, "events_delivered": 8000, "listener_calls_compared": 8000,
-              "waits_requested": 1500, "wait_outcomes_judged": 1500, "close_requests": 600,
-              "close_ack_before_event": 100, "close_event_before_ack": 100, "close_requested_twice": 50,
-              "listeners_added_after_object": 300, "listeners_removed": 150, "repeat_groups_compared": 100,
-              "reach:txtorcon.circuit:Circuit.close": 200, "reach:txtorcon.stream:Stream.close": 200,
-              "reach:txtorcon.circuit:Circuit.when_built": 200, "reach:txtorcon.util:SingleObserver.fire": 1000},
-    "thorough": {"evaluations": 8000, "events_delivered": 150000, "listener_calls_compared": 150000,
-                 "waits_requested": 30000, "wait_outcomes_judged": 30000, "close_requests": 10000,
-                 "close_ack_before_event": 2000, "close_event_before_ack": 2000, "close_requested_twice": 1000},
+    "quick": {"evaluations": 500, "events_delivered": 7000, "listener_calls_compared": 4000, "kwargs_compared": 1000,
+              "waits_requested": 2000, "wait_outcomes_judged": 2000, "close_requests": 1500,
+              "close_ack_before_event": 400, "close_event_before_ack": 400, "close_requested_twice": 500,
+              "listeners_added_after_object": 1000, "listeners_removed": 300, "repeat_groups_compared": 200,
+              "histories_with_all_positions": 4,
+              "reach:txtorcon.circuit:Circuit.close": 700, "reach:txtorcon.stream:Stream.close": 700,
+              "reach:txtorcon.circuit:Circuit.when_built": 400, "reach:txtorcon.util:SingleObserver.fire": 3000,
+              "reach:txtorcon.stream:Stream._notify": 3000},
+    "thorough": {"evaluations": 10000, "events_delivered": 150000, "listener_calls_compared": 80000,
+                 "waits_requested": 40000, "wait_outcomes_judged": 40000, "close_requests": 30000,
+                 "close_ack_before_event": 8000, "close_event_before_ack": 8000, "close_requested_twice": 10000,
+                 "listeners_added_after_object": 20000, "listeners_removed": 6000,
+                 "histories_with_all_positions": 100},
 }
 
 N_LISTENERS = 3
@@ -613,12 +617,12 @@ class Engine(object):
                 extra = ",not-first-request-after-gone"
             return "%s,requested=%s%s" % (w.kind, w.requested.replace("-never-built", ""), extra)
         later = same[i + 1:]
+        again = []
         if any(x.requested.startswith("live") for x in later):
-            extra = ",then-closed-again-while-live"
-        elif later:
-            extra = ",then-closed-again-after-gone"
-        else:
-            extra = ""
+            again.append("while-live")
+        if any(not x.requested.startswith("live") for x in later):
+            again.append("after-gone")
+        extra = ",then-closed-again-" + "+".join(again) if again else ""
         return "%s,requested=live%s" % (w.kind, extra)
 
     def facts(self, w):
@@ -782,6 +786,28 @@ def base_case(rnd, tier):
     return case
 
 
+def queued_close_scenario(rnd, eng):
+    """Stream.close() requested while the client's command queue is blocked by a held-back
+    acknowledgement, and Tor - which has not seen the CLOSESTREAM yet - detaches that stream"""
+    sim = eng.sim
+    if sim.held_acks or sim.pending or eng.dry_queue:
+        return None
+    cands = [s for s in sim.streams.values() if s.circ and not s.circ_dead and not s.succeeded and not s.marked]
+    if not cands:
+        return None
+    s = rnd.choice(cands)
+    others = [("c", c) for c in sim.circuits.values() if not c.marked and c.id != s.circ] + \
+             [("s", t) for t in sim.streams.values() if t is not s and not t.marked and not t.circ_dead]
+    if not others:
+        return None
+    k, x = rnd.choice(others)
+    return [{"op": "cclose" if k == "c" else "sclose", "k": k, "uid": x.uid, "via": "object",
+             "order": "event-first", "hold": 3},
+            {"op": "sclose", "k": "s", "uid": s.uid, "via": "object",
+             "order": rnd.choice(["together", "ack-first", "event-first"]), "hold": rnd.choice([0, 1])},
+            {"t": {"a": "detach", "id": s.id, "reason": rnd.choice(["TIMEOUT", "END"]), "remote": None}}]
+
+
 def gen_case(rnd, tier="quick"):
     """random history with operations spliced in; built by a dry run so that every operation
     refers to things that exist at its position"""
@@ -791,9 +817,20 @@ def gen_case(rnd, tier="quick"):
     eng = Engine(case, dry=True)
     eng.start()
     script = case["script"]
+
+    def put(item):
+        eng.pos = len(script)
+        script.append(item)
+        if "t" in item:
+            if eng.sim.legal(item["t"]):
+                eng.sim.apply(item["t"])
+                eng.pump("step")
+        else:
+            eng.do_op(item)
+        eng.tick()
+
     last_close = None
     for i in range(n):
-        eng.pos = len(script)
         while rnd.random() < p_op and len(script) < 80:
             if last_close is not None and rnd.random() < 0.3:
                 op = dict(last_close)                 # the same request again ("also twice")
@@ -807,24 +844,19 @@ def gen_case(rnd, tier="quick"):
                     break
                 if op["op"] in ("cclose", "sclose") and op.get("via") == "object":
                     last_close = op
-            script.append(op)
-            eng.do_op(op)
-            eng.tick()
+            put(op)
+        if rnd.random() < 0.06:
+            for item in queued_close_scenario(rnd, eng) or []:
+                put(item)
         act = eng.sim.propose(rnd)
         if act is None:
             break
-        act = {k: v for k, v in act.items() if k != "pending"}
-        script.append({"t": act})
-        eng.sim.apply(act)
-        eng.pump("step")
-        eng.tick()
+        put({"t": {k: v for k, v in act.items() if k != "pending"}})
     # a few operations after the last event ("after the deciding events")
     for _ in range(rnd.choice([0, 1, 2])):
         op = random_op(rnd, eng)
         if op is not None:
-            script.append(op)
-            eng.do_op(op)
-            eng.tick()
+            put(op)
     return case
 
 
